@@ -21,6 +21,7 @@ META = {
                     "StageTimer/logger no-ops"],
 }
 META["explanation"] += '  sort2-second-graph-in-process: another build of the graph sorted first in the same execution.  tokens/cli/sort.py: the path tokenizer decided as a language by z3.'
+META["explanation"] += '  The replay sorts the records twice: pure ASCII and with a comment field of multi-byte characters.'
 
 
 def harnesses(tier):
